@@ -31,6 +31,8 @@ MISSES = {
     'C23b': 'token objects were always built with their fields in canonical order -> fields given in shuffled order, and duplicate(key=value) results, must hash like their equals',
     'C07b': 'every recurrence started at or after the initial point (the same change is caught by C16 at function level) -> recurrences 0/P3, -1/P3, -P1/P3',
     'C31b': 'start points and all later points were single-digit -> a quarter of the runs are warm starts (2..9) of workflows with 10-12 cycles',
+    'C48b': 'histories were too short to reach run10 -> one history in twelve begins with 9-12 numbered installs',
+    'C11b': 'no task definition was also the target of a suicide trigger -> a third of the plain/user definitions loaded through WorkflowConfig get a "=> !a" line',
     'C01b': 'needs absolute triggers, which the C01 workload does not generate (its closure model is not validated for them) -> caught by C45; C01 unchanged',
 }
 
